@@ -60,7 +60,9 @@ PROPS = {
     "C32": P("hnet", "generated (key, session secret, signature/public-key mutation) tuples against an independent SEC1 parser + stdlib ECDSA + independent "
              "address derivation",
              "Whenever VerifySignature accepts, an independent verifier must confirm the signature is by the claimed key over this session's secret and that the id is "
-             "that key's address; other-session, other-key, mutated and malformed inputs are all exercised. Exploration.",
+             "that key's address; other-session, other-key, mutated and malformed inputs are all exercised. A second sub-check runs histories of up to 400 sessions over "
+             "up to 260 peers (returning peers, impostors, identities arriving by other ways) on one node and demands that every identity ever assigned still is the "
+             "address of the key that proved it. Exploration.",
              "trusted base: dcrd curve arithmetic, Go crypto/ecdsa, x/crypto sha3; ECDSA malleability is not decided", "DESIGN §8 (C32)"),
     "C33": P("hnet", "real onPacket on a hook-built PeerToPeer with generated peers/roles and relay sequences; decision function transcribed from the statement",
              "Every delivery to the recording callback is checked against the three stated rules (at most one delivery per flooded packet across any relaying peers, "
@@ -211,13 +213,14 @@ PROPS = {
              "the reference encoder and goldens are the harness author's reading of the legacy (Go <= 1.16) format", "DESIGN §7 (C25)"),
     "C26": P("hdata2", "rapid; logs through real receipts and merges, queried with API-built and independently computed SHA3 three-bit blooms, across compressed, "
              "bytes, JSON and persisted forms",
-             "Every address and indexed value of every generated log must be reported by the receipt bloom and by every carried form of the merged block bloom. "
-             "Exploration; no false-positive claim.",
+             "Every address and indexed value of every generated log must be reported by the receipt bloom and by every carried form of the merged block bloom; "
+             "one case in ten is a dense block (40..400 logs) whose bloom compresses to a stream that reaches 10-bit LZW codes. Exploration; no false-positive claim.",
              "trusts x/crypto/sha3", "DESIGN §7 (C26)"),
     "C28": P("hdata2", "rapid; two differently driven accumulators plus an independent 16-ary reference root, independent proof-chain verification and verifier trees "
              "with 11 alteration kinds, SetLen walks and enumerated rewinds against recorded per-prefix headers",
              "Headers are sequence-determined and equal to an independent reference; proofs of all or boundary keys verify independently and via MerkleTree.Add while "
-             "altered ones are rejected; every rewind is compared with fresh accumulation, including forks. Exploration up to 5000 (quick) / 70000 (thorough) leaves.",
+             "altered ones are rejected by a fresh verifier and by one that already holds the nodes of the path (it accepted the genuine proof or a neighbour's before); "
+             "every rewind is compared with fresh accumulation, including forks. Exploration up to 5000 (quick) / 70000 (thorough) leaves.",
              "leaves are distinct SHA3 values; MapDB is the store", "DESIGN §7 (C28)"),
     "C34": P("hicon", "rapid state machine over icsim at the latest revision with a receipt-driven ledger and invariants I1-I4 compared after every block",
              "Random multi-term histories of valid and invalid staking, delegation, bond, transfer, registration and claim transactions run on the real extension state; "
